@@ -361,6 +361,10 @@ def run_recipe(ctx: Ctx, recipe: Dict[str, Any], cid: str) -> Case:
     at that time"""
     if "history" in recipe:
         return run_history(ctx, recipe["history"], cid)[-1]
+    if "concurrent" in recipe:
+        c = run_concurrent(ctx, recipe["concurrent"], recipe.get("order", []), cid)[int(recipe.get("which", 0))]
+        c.cid = cid
+        return c
     return run_step(ctx, recipe, cid, {})
 
 
@@ -377,9 +381,8 @@ def run_history(ctx: Ctx, steps: List[Dict[str, Any]], cid: str) -> List[Case]:
     return out
 
 
-def run_step(ctx: Ctx, recipe: Dict[str, Any], cid: str, holder: Dict[str, Any]) -> Case:
-    from async_upnp_client.client_factory import UpnpFactory
-
+def prepare_step(recipe: Dict[str, Any]):
+    """driver lines of the description and the documents the network serves for it"""
     base = recipe["base"]
     strict = bool(recipe["strict"])
     d = recipe["dev"]
@@ -414,31 +417,108 @@ def run_step(ctx: Ctx, recipe: Dict[str, Any], cid: str, holder: Dict[str, Any])
     root = recipe.get("root")
     docs[base] = (200, render_description(st, d)) if root is None else tuple(root)
 
-    # the three constructor forms of a non-strict factory
-    ctor = recipe.get("ctor", "non_strict")
-    if "factory" not in holder:                    # a history keeps ONE requester and ONE factory for all its steps
-        holder["req"] = FakeRequester(docs)
-        holder["factory"] = UpnpFactory(holder["req"]) if strict else UpnpFactory(holder["req"], **{ctor: True})
-    holder["req"].docs = docs                      # what the network serves NOW
-    factory = holder["factory"]
-    tags.add("ctor:" + ("strict" if strict else ctor))
-    loop = asyncio.new_event_loop()
+    return recipe, lines, docs, tags, strict, base
+
+
+def finish_step(cid: str, recipe: Dict[str, Any], lines: List[str], tags: set, dev: Any, err: Optional[BaseException]) -> Case:
+    """append the observation (dump of the created graph or the exception) and make the Case"""
     nontrivial = False
-    try:
-        dev = loop.run_until_complete(factory.async_create_device(base))
+    if err is None:
         lines.append("res ok")
         dump(dev, 0, lines)
         nontrivial = bool(dev.all_services)
         tags.add("res:ok")
-    except AssertionError:
-        raise
-    except Exception as e:  # noqa: BLE001 - every exception is an observation
+    else:
         from async_upnp_client.exceptions import UpnpError
-        lines.append("res !{} L{}".format(exc_token(e), 1 if isinstance(e, UpnpError) else 0))
-        tags.add("res:!" + exc_token(e))
+        lines.append("res !{} L{}".format(exc_token(err), 1 if isinstance(err, UpnpError) else 0))
+        tags.add("res:!" + exc_token(err))
+    return Case(cid, lines, recipe, nontrivial, sorted(tags))
+
+
+def make_factory(req, strict: bool, ctor: str):
+    from async_upnp_client.client_factory import UpnpFactory
+    return UpnpFactory(req) if strict else UpnpFactory(req, **{ctor: True})
+
+
+def run_step(ctx: Ctx, recipe: Dict[str, Any], cid: str, holder: Dict[str, Any]) -> Case:
+    recipe, lines, docs, tags, strict, base = prepare_step(recipe)
+    # the three constructor forms of a non-strict factory
+    ctor = recipe.get("ctor", "non_strict")
+    if "factory" not in holder:                    # a history keeps ONE requester and ONE factory for all its steps
+        holder["req"] = FakeRequester(docs)
+        holder["factory"] = make_factory(holder["req"], strict, ctor)
+    holder["req"].docs = docs                      # what the network serves NOW
+    tags.add("ctor:" + ("strict" if strict else ctor))
+    loop = asyncio.new_event_loop()
+    dev, err = None, None
+    try:
+        dev = loop.run_until_complete(holder["factory"].async_create_device(base))
+    except Exception as e:  # noqa: BLE001 - every exception is an observation
+        err = e
     finally:
         loop.close()
-    return Case(cid, lines, recipe, nontrivial, sorted(tags))
+    return finish_step(cid, recipe, lines, tags, dev, err)
+
+
+class GatedRequester:
+    """every request suspends until the harness releases it; a request is answered from the documents of the creation
+    (asyncio task) that issued it"""
+
+    def __init__(self) -> None:
+        self.docs_of: Dict[Any, Dict[str, Any]] = {}
+        self.pending: List[Any] = []               # (task, url, future)
+
+    async def async_http_request(self, method, url, headers=None, body=None):
+        fut = asyncio.get_event_loop().create_future()
+        self.pending.append((asyncio.current_task(), url, fut))
+        return await fut
+
+
+def run_concurrent(ctx: Ctx, steps: List[Dict[str, Any]], order: List[int], cid: str) -> List[Case]:
+    """2-3 creations started TOGETHER on one factory; `order` says whose pending request is released next; every device is
+    its own Case, judged against its own documents and URL"""
+    steps = [{**st_, "strict": steps[0]["strict"], "ctor": steps[0].get("ctor", "non_strict")} for st_ in steps]
+    prepared = [prepare_step(st_) for st_ in steps]
+    strict, ctor = prepared[0][4], steps[0].get("ctor", "non_strict")
+    req = GatedRequester()
+    factory = make_factory(req, strict, ctor)
+    loop = asyncio.new_event_loop()
+    results: List[Any] = [None] * len(steps)
+
+    async def drive() -> None:
+        tasks = []
+        for k, prep in enumerate(prepared):
+            t = asyncio.ensure_future(factory.async_create_device(prep[5]))
+            req.docs_of[t] = prep[2]
+            tasks.append(t)
+        pos = 0
+        while not all(t.done() for t in tasks):
+            for _ in range(5):
+                await asyncio.sleep(0)             # let every creation run until it waits for a response
+            if not req.pending:
+                continue
+            want = tasks[order[pos % len(order)] % len(tasks)] if order else None
+            pos += 1
+            idx = next((i for i, (t, _, _) in enumerate(req.pending) if t is want), 0)
+            task, url, fut = req.pending.pop(idx)
+            status, text = req.docs_of[task].get(url, (404, "<html/>"))
+            fut.set_result((status, {}, text))
+        for k, t in enumerate(tasks):
+            results[k] = (None, t.exception()) if t.exception() is not None else (t.result(), None)
+
+    try:
+        loop.run_until_complete(drive())
+    finally:
+        loop.close()
+    out = []
+    for k, prep in enumerate(prepared):
+        recipe_k, lines, _docs, tags, _strict, _base = prep
+        tags.add("ctor:" + ("strict" if strict else ctor))
+        tags.add(f"concurrent:{len(steps)}")
+        dev, err = results[k]
+        c = finish_step(f"{cid}.{k}", {"concurrent": steps, "order": order, "which": k}, lines, tags, dev, err)
+        out.append(c)
+    return out
 
 
 # ---------------------------------------------------------------------------------------------
@@ -743,6 +823,40 @@ def gen_history(rng) -> List[Dict[str, Any]]:
     return steps
 
 
+def gen_concurrent(rng) -> Dict[str, Any]:
+    """2-3 different devices (different description URLs, documents) to be created at once on one factory"""
+    n = rng.choice([2, 2, 3])
+    bases = rng.sample(BASES, n)
+    steps = []
+    for k in range(n):
+        r = gen_recipe(rng, True)
+        r["base"] = bases[k]
+        steps.append(r)
+    return {"concurrent": steps, "order": [rng.randrange(n) for _ in range(rng.choice([1, 8, 40]))]}
+
+
+def small_pair(rng) -> List[Dict[str, Any]]:
+    """two small devices (1-2 services each) for the exhaustive interleavings"""
+    out = []
+    for k, base in enumerate(rng.sample(BASES, 2)):
+        svcs = [svc(10 * k + i + 1, g_scpd(rng, True)) for i in range(rng.choice([1, 2]))]
+        for s0 in svcs:
+            s0["control"], s0["event"] = g_rel_url(rng, f"c{k}"), g_rel_url(rng, f"e{k}")
+        icons = [{"mimetype": "image/png", "width": "1", "height": "1", "depth": "1", "url": g_rel_url(rng, f"icon{k}.png")}]
+        out.append({"base": base, "strict": True, "dev": leaf_dev(svcs, icons=icons, n=k + 1), "style": rng.randrange(1 << 30)})
+    strict = rng.random() < 0.5
+    for r in out:
+        r["strict"] = strict
+    return out
+
+
+def all_orders(f1: int, f2: int) -> List[List[int]]:
+    """every interleaving of f1 responses to creation 0 and f2 responses to creation 1"""
+    import itertools
+    n = f1 + f2
+    return [[0 if i in pos else 1 for i in range(n)] for pos in itertools.combinations(range(n), f1)]
+
+
 def leaf_dev(services=None, icons=None, embedded=None, n=1) -> Dict[str, Any]:
     info = [f"urn:schemas-upnp-org:device:Basic:{n}", "name", "manu", None, None, "model", None, None, None, f"uuid:{n}", None, None]
     return {"info": info, "icons": icons or [], "services": services or [], "embedded": embedded or []}
@@ -837,6 +951,10 @@ def corpus() -> List[Dict[str, Any]]:
     out.append({"history": [mk(b, [doc, doc2]), mk(b, [doc2, doc])]})
     out.append({"history": [mk(b, [doc]), mk("http://10.9.9.9/other/desc.xml", [doc2])]})
     out.append({"history": [mk(b, [doc, doc2], False), mk(b, [bad, doc], False), mk(b, [doc2, bad], False)]})
+    # two creations in flight at once on one factory, different description URLs
+    other = "http://10.9.9.9/other/desc.xml"
+    for order in ([0, 1], [1, 0], [0, 0, 1, 1], [1, 1, 0, 0], [0, 1, 1, 0]):
+        out.append({"concurrent": [mk(b, [doc, doc2]), mk(other, [doc2])], "order": order})
     return out
 
 
@@ -851,6 +969,8 @@ def generate(ctx: Ctx) -> List[Case]:
     for rec in CORPUS:
         if "history" in rec:
             cases += run_history(ctx, rec["history"], f"corpus{i}")
+        elif "concurrent" in rec:
+            cases += run_concurrent(ctx, rec["concurrent"], rec["order"], f"corpus{i}")
         else:
             cases.append(run_recipe(ctx, rec, f"corpus{i}"))
         i += 1
@@ -863,6 +983,17 @@ def generate(ctx: Ctx) -> List[Case]:
     # histories on one long-lived factory: every creation is judged against the documents served at that time
     for _ in range(4000 if ctx.thorough else 250):
         cases += run_history(ctx, gen_history(ctx.rng), f"h{i}")
+        i += 1
+    # concurrent creations on one factory (a requester that suspends): no cross-talk between creations
+    for _ in range(3 if ctx.thorough else 5):
+        pair = small_pair(ctx.rng)
+        f = [1 + len(p_["dev"]["services"]) for p_ in pair]
+        for order in all_orders(f[0], f[1]):                               # every order of releasing the responses
+            cases += run_concurrent(ctx, pair, order, f"x{i}")
+            i += 1
+    for _ in range(2500 if ctx.thorough else 120):
+        rc = gen_concurrent(ctx.rng)
+        cases += run_concurrent(ctx, rc["concurrent"], rc["order"], f"c{i}")
         i += 1
     return cases
 
